@@ -38,7 +38,7 @@ OPTS = ("rename", "use_operators", "inline_const", "skip_initializers")
 # when several deviations explain an outcome class, blame in this order (export-time first)
 PRIORITY = [
     "for_loop_no_scope", "skip_init_indent", "rename_signature", "init_double_rename", "loop_break_form",
-    "inline_const_nonref", "inline_init_key", "inline_nan_inf", "attr_nonfinite_repr", "no_default_opset",
+    "inline_const_nonref", "inline_init_key", "inline_nan_inf", "attr_nonfinite_repr", "no_default_opset", "dead_if_refused",
     "loop_state_seq_copy", "infix_neg_literal_pow", "cleanup_collision",
 ]
 
@@ -350,6 +350,15 @@ def round_trip(obj, orig_model, feeds_list, opts, *, function=None, big=(), main
     if sig_of(m2) != sig_of(orig_model):
         return {**out, "cls": "diff", "stage": "signature", "msg": f"graph inputs/outputs {sig_of(m2)} instead of {sig_of(orig_model)}"}
     if not same_outputs(r1, r2):
+        # a difference must be reproducible: run the round-tripped model once more in a fresh session
+        try:
+            r2b = run_model(m2, feeds_list)
+        except Exception:  # noqa: BLE001
+            r2b = None
+        if r2b is None or not same_outputs(r2, r2b):
+            if r2b is not None and same_outputs(r1, r2b):
+                return {**out, "unstable": True}
+            return {"discard": "the runtime gives different results for the same round-tripped model on repeated runs"}
         return {**out, "cls": "diff", "stage": "value",
                 "msg": f"outputs {[[np.asarray(x).tolist() for x in r] for r in r2]} instead of {[[np.asarray(x).tolist() for x in r] for r in r1]}"}
     return out
@@ -394,6 +403,8 @@ def replay_case(case, keep_text=False):
         rt = round_trip(obj, orig, feeds, case_opts(case), big=big,
                         main_name=GNAME if case["kind"] == "model" else FNAME,
                         wrap=gm.wrap if case["kind"] == "function" else None, keep_text=keep_text)
+        if "discard" in rt:
+            return rt
         res.update(rt)
         return res
     except core.MachineryError:
@@ -440,6 +451,7 @@ def tlc_cases(ctx):
     cases = parse_cases(res.out)
     if not cases:
         raise core.MachineryError("TLC printed no cases")
+    cases.sort(key=lambda c: json.dumps(c, sort_keys=True))      # TLC's workers print in no particular order
     return cases
 
 
@@ -706,6 +718,12 @@ def structure(model_or_fn):
         return i < len(n.input) and n.input[i] != ""
 
     inits = list(model_or_fn.graph.initializer) if is_model else []
+    used = {x for n in nodes for x in n.input} | set((o.name for o in model_or_fn.graph.output) if is_model else model_or_fn.output)
+    for n in nodes:
+        for a in n.attribute:
+            if a.type == onnx.AttributeProto.GRAPH:
+                used.update(o.name for o in a.g.output)
+    dead_if = any(n.op_type == "If" and not (set(n.output) & used) for n in nodes)
     inl = [n.output[0] for n in nodes if n.op_type == "Constant" and onnx_export._get_const_repr(n) is not None]
     small = [t.name for t in inits
              if onnx_export._get_const_repr(onnx.helper.make_node("Constant", [], ["x"], value=t)) is not None]
@@ -722,6 +740,7 @@ def structure(model_or_fn):
         "big_init": any(int(np.prod(t.dims)) > 4 for t in inits),
         "nonref_consts": sorted(set(inl) & nonref),
         "init_names": small,
+        "dead_if": dead_if,
         "attr_defaults": [] if is_model else [a.name for a in model_or_fn.attribute_proto],
     }
 
@@ -742,6 +761,8 @@ def symptom_blame(kind, opts, st, r):
         return "loop_break_form"
     if cls == "noconv" and "default_opset must be specified" in msg:
         return "no_default_opset"
+    if cls == "noconv" and "A subgraph for a test do not have any output variable" in msg and st["dead_if"]:
+        return "dead_if_refused"
     if cls == "noconv" and "Unbound name" in msg:
         name = msg.split("Unbound name:")[1].split(".")[0].strip()
         short = name.startswith("v") and name[1:].isdigit()
@@ -792,6 +813,8 @@ def script_case(item):
 
             r = round_trip(fp, wrap(fp), feeds_list, opts, main_name=name, wrap=wrap)
             st = structure(fp)
+        if "discard" in r:
+            return r
         r["blame"] = symptom_blame(kind, opts, st, r) if r["cls"] != "ok" else None
         return r
     except Exception as e:  # noqa: BLE001
@@ -959,6 +982,8 @@ def extra_case(item):
             except Exception as e:  # noqa: BLE001
                 return {"discard": f"ORT refuses the original: {str(e)[:200]}"}
             r = round_trip(m, m, feeds, opts, big=big, main_name="xg")
+            if "discard" in r:
+                return r
         r["in_class"] = in_class
         r["blame"] = symptom_blame("model", opts, structure(m), r) if r["cls"] != "ok" else None
         if not in_class and r["cls"] == "noconv" and r["stage"] != "syntax":
